@@ -329,6 +329,16 @@ def dashmap_insert_release(tid, k, val):
     return op
 
 
+def dashmap_insert_held(tid, k, val):
+    """OccupiedEntry::insert(&mut self, v): overwrite while the entry guard stays held (released when the entry is dropped)"""
+    def op(state, args=None):
+        ns = dict(state)
+        ns['p%d' % k] = z3.BoolVal(True)
+        ns['v%d' % k] = bv(val, 8)
+        return z3.BoolVal(True), ns, {'held': state['l%d' % k] == tid + 1, 'val': state['v%d' % k]}
+    return op
+
+
 def dashmap_release(tid, k):
     def op(state, args=None):
         ns = dict(state)
